@@ -215,6 +215,13 @@ type outEval struct {
 	pseudo    map[string]int  // pseudo-term keys (fields of struct parameters, range elements) -> term id
 	PseudoKey map[int]string  // term id -> key
 	termForms map[int][]*Form // term key -> the conditions under which it was written
+	// intrinsic: what is known of a pseudo-term by construction (a token's bytes)
+	intrinsic map[int]*Form
+	TokenSets map[int]*relang.Set
+	// Tokens: give the results of splitter functions terms of their own in every frame
+	Tokens bool
+	// termOverride: while a path of a helper is compiled, the languages of the terms on that path
+	termOverride map[int]*relang.DFA
 }
 
 func newOutEval(p *Program, s *Summarizer) *outEval {
@@ -284,7 +291,7 @@ func (x *lx) String() string {
 		return "writes(" + strings.TrimPrefix(fnName(x.Buf.fn), modulePath) + ")"
 	case "none":
 		return "∅"
-	case "trimsuffix", "trimprefix":
+	case "trimsuffix", "trimprefix", "cutprefix", "cutsuffix":
 		return fmt.Sprintf("%s(%s, %q)", x.Kind, x.Parts[0].String(), x.S)
 	}
 	return "?"
@@ -327,6 +334,9 @@ func (oe *outEval) strLx(v ssa.Value, b *ssa.BasicBlock, fr *oframe) *lx {
 			// an argument of the enclosing call: what the caller knew about it still holds
 			f = fAnd(x.Form, f)
 		}
+		if in, ok := oe.intrinsic[t.Key()]; ok {
+			f = fAnd(in, f)
+		}
 		return &lx{Kind: "term", Term: t, Form: f}
 	}
 	switch x := v.(type) {
@@ -356,6 +366,10 @@ func (oe *outEval) strLx(v ssa.Value, b *ssa.BasicBlock, fr *oframe) *lx {
 			alts = append(alts, oe.strLx(e, x.Block().Preds[i], fr))
 		}
 		return lxAlt(alts...)
+	case *ssa.Slice:
+		if isStringish(x.X.Type()) || isByteSlice(x.X.Type()) {
+			return oe.sliceLx(x, b, fr)
+		}
 	case *ssa.Convert:
 		if isStringish(x.X.Type()) || isByteSlice(x.X.Type()) {
 			return oe.strLx(x.X, b, fr)
@@ -541,7 +555,7 @@ func (oe *outEval) inlineLx(f *ssa.Function, args []ssa.Value, idx int, b *ssa.B
 			// the argument's own guards in the caller still hold in the callee: keep them as a binding
 			if isStringish(prm.Type()) {
 				if !t.Lower && t.Strip == nil && !t.Unesc {
-					fr2.bind[prm] = &lx{Kind: "term", Term: t, Form: oe.s.blockCond(b, fr.env, "argument "+termStr(t))}
+					fr2.bind[prm] = oe.boundTerm(t, oe.s.blockCond(b, fr.env, "argument "+termStr(t)), fr)
 				}
 			}
 		} else if isStringish(prm.Type()) || isByteSlice(prm.Type()) {
@@ -561,6 +575,9 @@ func (oe *outEval) inlineLx(f *ssa.Function, args []ssa.Value, idx int, b *ssa.B
 				}
 			}(prm)
 		}
+	}
+	if oe.Tokens {
+		oe.seedTokens(fr2)
 	}
 	oe.active[f]++
 	defer func() { oe.active[f]-- }()
@@ -787,13 +804,16 @@ func (oe *outEval) piecesOf(bs *bufSpec) {
 						if t, ok := oe.s.termOf(c.Args[i], fr.env); ok {
 							fr2.env[prm] = t
 							if isStringish(prm.Type()) && !t.Lower && t.Strip == nil && !t.Unesc {
-								fr2.bind[prm] = &lx{Kind: "term", Term: t, Form: oe.s.blockCond(b, fr.env, "argument "+termStr(t))}
+								fr2.bind[prm] = oe.boundTerm(t, oe.s.blockCond(b, fr.env, "argument "+termStr(t)), fr)
 							}
 						} else if isStringish(prm.Type()) {
 							fr2.bind[prm] = oe.strLx(c.Args[i], b, fr)
 						}
 					}
 					if hb != nil {
+						if oe.Tokens {
+							oe.seedTokens(fr2)
+						}
 						oe.active[f]++
 						sub := &bufSpec{fn: f, buf: hb, fr: fr2}
 						oe.piecesOf(sub)
@@ -816,7 +836,7 @@ func (oe *outEval) register(x *lx, L *Lang, seen map[*lx]bool) error {
 	}
 	seen[x] = true
 	switch x.Kind {
-	case "lit", "trimsuffix", "trimprefix":
+	case "lit", "trimsuffix", "trimprefix", "cutprefix", "cutsuffix":
 		L.AddString(x.S)
 	case "set":
 		L.AddSet(x.Set)
@@ -901,6 +921,9 @@ func (oe *outEval) compile(x *lx, L *Lang, memo map[*lx]*relang.DFA) (*relang.DF
 			}
 			d = dd
 		}
+		if ov, ok := oe.termOverride[x.Term.Key()]; ok {
+			d = relang.Intersect(d, ov).Minimize()
+		}
 	case "cat":
 		d = relang.Literal(L.A, "")
 		for _, p := range x.Parts {
@@ -933,6 +956,22 @@ func (oe *outEval) compile(x *lx, L *Lang, memo map[*lx]*relang.DFA) (*relang.DF
 			startsK := relang.Concat(lit, L.All())
 			d = relang.Union(relang.Minus(pd, startsK), relang.LeftQuotientLiteral(pd, x.S)).Minimize()
 		}
+	case "cutprefix", "cutsuffix":
+		pd, err := oe.compile(x.Parts[0], L, memo)
+		if err != nil {
+			return nil, err
+		}
+		switch {
+		case x.Kind == "cutprefix" && x.S != "":
+			d = relang.LeftQuotientLiteral(pd, x.S)
+		case x.Kind == "cutprefix":
+			d = relang.DropFirst(pd)
+		case x.S != "":
+			d = relang.RightQuotientLiteral(pd, x.S)
+		default:
+			d = relang.DropLast(pd)
+		}
+		d = d.Minimize()
 	case "star":
 		pd, err := oe.compile(x.Parts[0], L, memo)
 		if err != nil {
@@ -945,6 +984,40 @@ func (oe *outEval) compile(x *lx, L *Lang, memo map[*lx]*relang.DFA) (*relang.DF
 		if bs.bad != "" {
 			oe.Problems = append(oe.Problems, bs.bad)
 			d = L.All()
+			break
+		}
+		if oe.pathModeApplies(bs) {
+			d1, err := oe.compileBufPaths(bs, L, true)
+			if err != nil {
+				return nil, err
+			}
+			d = d1
+			if oe.lenAware(bs) {
+				d2, err := oe.compileBufPaths(bs, L, false)
+				if err != nil {
+					return nil, err
+				}
+				d = relang.Union(d1, d2).Minimize()
+			}
+			break
+		}
+		if oe.lenAware(bs) {
+			var err error
+			if _, fresh := bs.buf.(*ssa.Alloc); fresh {
+				d, err = oe.compileBufAware(bs, L, memo, true)
+			} else {
+				var d1, d2 *relang.DFA
+				d1, err = oe.compileBufAware(bs, L, memo, true)
+				if err == nil {
+					d2, err = oe.compileBufAware(bs, L, memo, false)
+				}
+				if err == nil {
+					d = relang.Union(d1, d2).Minimize()
+				}
+			}
+			if err != nil {
+				return nil, err
+			}
 			break
 		}
 		g := relang.NewGraph(L.A)
@@ -1241,4 +1314,360 @@ func lxHasAny(x *lx) bool {
 		return false
 	}
 	return walk(x)
+}
+
+// ---- slices --------------------------------------------------------------------------------------
+
+type cutAlt struct {
+	n    int    // bytes cut: 0 or 1
+	k    string // the byte that is known to be cut ("" = any)
+	form *Form  // the condition under which the bound takes this value (an edge of a phi)
+}
+
+// edgeForm: the condition of taking the edge p→x.
+func (oe *outEval) edgeForm(p, x *ssa.BasicBlock, fr *oframe) *Form {
+	c := oe.s.blockCond(p, fr.env, "edge")
+	if iff, ok := p.Instrs[len(p.Instrs)-1].(*ssa.If); ok && p.Succs[0] != p.Succs[1] {
+		ec := oe.s.ValueForm(iff.Cond, fr.env)
+		if u, _ := ec.HasUnknown(); !u {
+			if p.Succs[1] == x {
+				ec = fNot(ec)
+			}
+			c = fAnd(c, ec)
+		}
+	}
+	return c
+}
+
+// edgeByteGuard: block b is reached only if the first (front) or last byte of x equals a constant.
+func edgeByteGuard(b *ssa.BasicBlock, x ssa.Value, front bool) string {
+	isPos := func(idx ssa.Value) bool {
+		if front {
+			k, ok := constIntExpr(idx)
+			return ok && k == 0
+		}
+		if bo, ok := idx.(*ssa.BinOp); ok && bo.Op == token.SUB {
+			if s, ok := isLenOf(bo.X); ok && s == x {
+				k, okk := constIntExpr(bo.Y)
+				return okk && k == 1
+			}
+		}
+		return false
+	}
+	byteOf := func(v ssa.Value) bool {
+		switch y := v.(type) {
+		case *ssa.Index:
+			return y.X == x && isPos(y.Index)
+		case *ssa.Lookup:
+			return y.X == x && isPos(y.Index)
+		case *ssa.UnOp:
+			if ia, ok := y.X.(*ssa.IndexAddr); ok && y.Op == token.MUL {
+				return ia.X == x && isPos(ia.Index)
+			}
+		}
+		return false
+	}
+	var test func(c ssa.Value, pol bool) string
+	test = func(c ssa.Value, pol bool) string {
+		switch y := c.(type) {
+		case *ssa.UnOp:
+			if y.Op == token.NOT {
+				return test(y.X, !pol)
+			}
+		case *ssa.BinOp:
+			if (y.Op == token.EQL && pol) || (y.Op == token.NEQ && !pol) {
+				l, r := y.X, y.Y
+				if _, isK := l.(*ssa.Const); isK {
+					l, r = r, l
+				}
+				if k, ok := constInt(r); ok && byteOf(l) && k >= 0 && k < 0x80 {
+					return string(rune(k))
+				}
+			}
+		case *ssa.Call:
+			if g := staticCallee(y.Common()); g != nil && pol && len(y.Common().Args) == 2 && y.Common().Args[0] == x {
+				n := fnName(g)
+				if (front && (n == "strings.HasPrefix" || n == "bytes.HasPrefix")) || (!front && (n == "strings.HasSuffix" || n == "bytes.HasSuffix")) {
+					if k, ok := constString(y.Common().Args[1]); ok && len(k) == 1 {
+						return k
+					}
+				}
+			}
+		}
+		return ""
+	}
+	for d := b; d != nil; d = d.Idom() {
+		id := d.Idom()
+		if id == nil {
+			break
+		}
+		iff, ok := id.Instrs[len(id.Instrs)-1].(*ssa.If)
+		if !ok {
+			continue
+		}
+		var k string
+		if id.Succs[0].Dominates(b) && !id.Succs[1].Dominates(b) {
+			k = test(iff.Cond, true)
+		} else if id.Succs[1].Dominates(b) && !id.Succs[0].Dominates(b) {
+			k = test(iff.Cond, false)
+		}
+		if k != "" {
+			return k
+		}
+	}
+	return ""
+}
+
+// cutAlts: how many bytes the bound v of a slice of x cuts off at that end, per path.
+func (oe *outEval) cutAlts(v ssa.Value, x ssa.Value, front bool, b *ssa.BasicBlock, depth int, fr *oframe) ([]cutAlt, bool) {
+	if v == nil {
+		return []cutAlt{{}}, true
+	}
+	if depth > 4 {
+		return nil, false
+	}
+	if front {
+		if k, ok := constIntExpr(v); ok {
+			switch k {
+			case 0:
+				return []cutAlt{{}}, true
+			case 1:
+				return []cutAlt{{n: 1, k: edgeByteGuard(b, x, true)}}, true
+			}
+			return nil, false
+		}
+	} else {
+		if s, ok := isLenOf(v); ok && s == x {
+			return []cutAlt{{}}, true
+		}
+		if bo, ok := v.(*ssa.BinOp); ok && bo.Op == token.SUB {
+			if s, ok := isLenOf(bo.X); ok && s == x {
+				if k, ok := constIntExpr(bo.Y); ok && k == 1 {
+					return []cutAlt{{n: 1, k: edgeByteGuard(b, x, false)}}, true
+				}
+			}
+		}
+	}
+	if ph, ok := v.(*ssa.Phi); ok {
+		var out []cutAlt
+		for i, e := range ph.Edges {
+			as, ok := oe.cutAlts(e, x, front, ph.Block().Preds[i], depth+1, fr)
+			if !ok {
+				return nil, false
+			}
+			ef := oe.edgeForm(ph.Block().Preds[i], ph.Block(), fr)
+			for _, a := range as {
+				if a.form == nil {
+					a.form = ef
+				} else {
+					a.form = fAnd(a.form, ef)
+				}
+				out = append(out, a)
+			}
+		}
+		return out, true
+	}
+	return nil, false
+}
+
+func (oe *outEval) sliceLx(x *ssa.Slice, b *ssa.BasicBlock, fr *oframe) *lx {
+	base := oe.strLx(x.X, b, fr)
+	lows, ok1 := oe.cutAlts(x.Low, x.X, true, x.Block(), 0, fr)
+	highs, ok2 := oe.cutAlts(x.High, x.X, false, x.Block(), 0, fr)
+	if !ok1 || !ok2 {
+		return lxAny() // bounds that only a path-by-path evaluation can follow (see bufpaths.go)
+	}
+	var alts []*lx
+	for _, lo := range lows {
+		for _, hi := range highs {
+			y := base
+			if base.Kind == "term" && (lo.form != nil || hi.form != nil) {
+				f := base.Form
+				for _, ef := range []*Form{lo.form, hi.form} {
+					if ef != nil {
+						f = fAnd(f, ef)
+					}
+				}
+				y = &lx{Kind: "term", Term: base.Term, Form: f}
+			}
+			if lo.n == 1 {
+				y = &lx{Kind: "cutprefix", S: lo.k, Parts: []*lx{y}}
+			}
+			if hi.n == 1 {
+				y = &lx{Kind: "cutsuffix", S: hi.k, Parts: []*lx{y}}
+			}
+			alts = append(alts, y)
+		}
+	}
+	return lxAlt(alts...)
+}
+
+// ---- buffers whose emptiness is tested ---------------------------------------------------------
+
+// bufLenTest: the branch tests whether the buffer is empty; returns the index of the successor
+// taken when it is empty.
+func bufLenTest(iff *ssa.If, buf ssa.Value) (int, bool) {
+	bo, ok := iff.Cond.(*ssa.BinOp)
+	if !ok {
+		return 0, false
+	}
+	call, ok := bo.X.(*ssa.Call)
+	if !ok {
+		return 0, false
+	}
+	g := staticCallee(call.Common())
+	if g == nil || fnName(g) != "(*bytes.Buffer).Len" || len(call.Common().Args) != 1 || !isBufRef(call.Common().Args[0], buf) {
+		return 0, false
+	}
+	if k, ok := constInt(bo.Y); !ok || k != 0 {
+		return 0, false
+	}
+	switch bo.Op {
+	case token.EQL:
+		return 0, true
+	case token.NEQ, token.GTR:
+		return 1, true
+	}
+	return 0, false
+}
+
+func (oe *outEval) lenAware(bs *bufSpec) bool {
+	for _, b := range bs.fn.Blocks {
+		if iff, ok := b.Instrs[len(b.Instrs)-1].(*ssa.If); ok {
+			if _, ok := bufLenTest(iff, bs.buf); ok {
+				return true
+			}
+		}
+	}
+	// a helper that is handed the buffer and tests it
+	oe.piecesOf(bs)
+	for _, ps := range bs.pieces {
+		for _, pc := range ps {
+			if pc.X.Kind == "buf" && pc.X.Buf != bs && oe.lenAware(pc.X.Buf) {
+				return true
+			}
+		}
+	}
+	return false
+}
+
+// compileBufAware: the language written to the buffer, with one bit of state: whether the buffer
+// is still empty. A piece leaves it empty only by writing nothing; a test of Len() follows the
+// side that agrees with the bit.
+func (oe *outEval) compileBufAware(bs *bufSpec, L *Lang, memo map[*lx]*relang.DFA, entryEmpty bool) (*relang.DFA, error) {
+	oe.piecesOf(bs)
+	g := relang.NewGraph(L.A)
+	eps := relang.Literal(L.A, "")
+	inE := map[*ssa.BasicBlock]int{}
+	inN := map[*ssa.BasicBlock]int{}
+	outE := map[*ssa.BasicBlock]int{}
+	outN := map[*ssa.BasicBlock]int{}
+	var accept []int
+	for _, b := range bs.fn.Blocks {
+		inE[b], inN[b] = g.NewState(), g.NewState()
+	}
+	pieceDFAs := func(x *lx) (*relang.DFA, *relang.DFA, error) {
+		if x.Kind == "buf" && x.Buf != bs && oe.pathModeApplies(x.Buf) {
+			oe.piecesOf(x.Buf)
+			pe, err := oe.compileBufPaths(x.Buf, L, true)
+			if err != nil {
+				return nil, nil, err
+			}
+			pn, err := oe.compileBufPaths(x.Buf, L, false)
+			return pe, pn, err
+		}
+		if x.Kind == "buf" && x.Buf != bs && oe.lenAware(x.Buf) {
+			pe, err := oe.compileBufAware(x.Buf, L, memo, true)
+			if err != nil {
+				return nil, nil, err
+			}
+			pn, err := oe.compileBufAware(x.Buf, L, memo, false)
+			return pe, pn, err
+		}
+		pd, err := oe.compile(x, L, memo)
+		return pd, pd, err
+	}
+	for _, b := range bs.fn.Blocks {
+		curE, curN := inE[b], inN[b]
+		pcs := bs.pieces[b]
+		k := 0
+		for _, ins := range b.Instrs {
+			if bs.end != nil && ins == bs.end {
+				accept = append(accept, curE, curN)
+			}
+			if k < len(pcs) && pcs[k].At == ins {
+				pe, pn, err := pieceDFAs(pcs[k].X)
+				if err != nil {
+					return nil, err
+				}
+				nE, nN := g.NewState(), g.NewState()
+				g.Embed(curE, nE, relang.Intersect(pe, eps))
+				g.Embed(curE, nN, relang.Minus(pe, eps))
+				g.Embed(curN, nN, pn)
+				curE, curN = nE, nN
+				k++
+			}
+			if _, isRet := ins.(*ssa.Return); isRet && bs.end == nil {
+				accept = append(accept, curE, curN)
+			}
+		}
+		outE[b], outN[b] = curE, curN
+	}
+	for _, b := range bs.fn.Blocks {
+		if iff, ok := b.Instrs[len(b.Instrs)-1].(*ssa.If); ok {
+			if e, ok := bufLenTest(iff, bs.buf); ok {
+				g.Eps(outE[b], inE[b.Succs[e]])
+				g.Eps(outN[b], inN[b.Succs[1-e]])
+				continue
+			}
+		}
+		for _, su := range b.Succs {
+			g.Eps(outE[b], inE[su])
+			g.Eps(outN[b], inN[su])
+		}
+	}
+	start := inN[bs.fn.Blocks[0]]
+	if entryEmpty {
+		start = inE[bs.fn.Blocks[0]]
+	}
+	return g.DFA(start, accept).Minimize(), nil
+}
+
+// dumpLx prints an expression with the pieces of its buffers (debugging aid).
+func (oe *outEval) dumpLx(x *lx, indent string, seen map[*lx]bool) {
+	if x == nil || seen[x] {
+		return
+	}
+	seen[x] = true
+	switch x.Kind {
+	case "buf":
+		fmt.Printf("%sbuf of %s\n", indent, fnName(x.Buf.fn))
+		for _, b := range x.Buf.fn.Blocks {
+			for _, pc := range x.Buf.pieces[b] {
+				fmt.Printf("%s  block %d @%s: %s\n", indent, b.Index, oe.p.Pos(pc.At.Pos()), pc.X.String())
+				oe.dumpLx(pc.X, indent+"    ", seen)
+			}
+		}
+	case "term":
+		fmt.Printf("%sterm %s under %s\n", indent, termStr(x.Term), x.Form.String())
+	default:
+		for _, p := range x.Parts {
+			oe.dumpLx(p, indent+"  ", seen)
+		}
+	}
+}
+
+// boundTerm: a term handed to a helper, with what the caller knows of it and what is known by construction.
+func (oe *outEval) boundTerm(t Term, f *Form, fr *oframe) *lx {
+	if in, ok := oe.intrinsic[t.Key()]; ok {
+		f = fAnd(in, f)
+	}
+	// what the caller of this frame knew about the same term still holds
+	for _, x := range fr.bind {
+		if x != nil && x.Kind == "term" && x.Term == t && x.Form != nil {
+			f = fAnd(x.Form, f)
+			break
+		}
+	}
+	return &lx{Kind: "term", Term: t, Form: f}
 }
